@@ -509,6 +509,11 @@ impl Run {
                 via = "api";
             }
         }
+        self.record_append(resp, via, ctx_real, topic, ttl, meta, content);
+    }
+
+    /// the outcome of an append, as an event
+    fn record_append(&mut self, resp: Value, via: &str, ctx_real: &str, topic: &str, ttl: &Value, meta: &str, content: &str) {
         self.note_id(ctx_real);
         self.topics_used.insert(topic.to_string());
         let ok = resp["ok"] == json!(true);
@@ -944,6 +949,41 @@ impl Run {
         }
     }
 
+    /// C02 over HTTP: an upload that is still open while another client's append completes and is observed - the frame of
+    /// the slow upload is appended when its body is complete, i.e. after the other one, and gets the larger id
+    pub fn op_slow_append(&mut self) {
+        if !self.http || self.cli || self.dead {
+            return;
+        }
+        let pool: Vec<String> = std::iter::once(Self::zero()).chain(self.ctxs.iter().cloned()).collect();
+        let ctx = pool[self.rng.gen_range(0..pool.len())].clone();
+        let other = pool[self.rng.gen_range(0..pool.len())].clone();
+        let topic = ["tA", "tAB", "tB"][self.rng.gen_range(0..3)];
+        let topic_s = self.fam.topics.get(topic).cloned().unwrap();
+        let ctok = ["b1", "b2", "b3"][self.rng.gen_range(0..3)];
+        let bytes = self.fam.contents.get(ctok).cloned().unwrap_or_default();
+        if bytes.is_empty() {
+            return;
+        }
+        let cut = (bytes.len() / 2).max(1).min(bytes.len());
+        let r = self.call(json!({"op": "slow_open", "target": format!("/{topic_s}?context={ctx}"),
+            "first": base64::prelude::BASE64_STANDARD.encode(&bytes[..cut])}));
+        if Self::failed(&r) || r["status"] != json!(0) {
+            return;
+        }
+        // (let the server take the request in; nothing is concluded from this pause)
+        std::thread::sleep(std::time::Duration::from_millis(40));
+        let forever = json!({"k": "forever", "n": 0});
+        self.op_append(&other, "tABC", &forever, "none", "none");
+        self.op_read("sync", Some(other.as_str()), None, None);
+        let resp = self.call(json!({"op": "slow_finish", "rest": base64::prelude::BASE64_STANDARD.encode(&bytes[cut..])}));
+        if Self::failed(&resp) {
+            return;
+        }
+        // (no ttl parameter: the route's default)
+        self.record_append(resp, "http", &ctx, topic, &forever, "none", ctok);
+    }
+
     pub fn op_bad(&mut self, class: &str) {
         let resp = self.call(json!({"op": "bad", "class": class}));
         if Self::failed(&resp) {
@@ -1111,6 +1151,9 @@ impl Run {
         }
         if self.http && self.rng.gen_range(0..8) == 0 {
             self.op_follow_probe();
+        }
+        if self.http && self.rng.gen_range(0..16) == 0 {
+            self.op_slow_append();
         }
         if self.http && self.rng.gen_range(0..3) == 0 {
             let c = crate::http::BAD_CLASSES[self.rng.gen_range(0..crate::http::BAD_CLASSES.len())];
@@ -1350,6 +1393,39 @@ impl Run {
 }
 
 /// one behaviour: {"b": n, "W": 8, "seed": s, "ops": [...]}
+/// C02 over HTTP with the real clock and the real id generator (the virtual clock of the other runs hands out the ids
+/// itself, inside `Store::append`, and so cannot see who else might stamp a frame): an upload that is still open while
+/// another client's append completes and is read; the slow frame is appended when its body is complete and must sort
+/// after the quick one - for a poller resuming from the quick frame too. Ids are compared as they are, no abstraction.
+pub fn realtime_order_probe(root: &Path, seed: u64) -> Vec<Value> {
+    let dir = root.join("rt");
+    let _ = std::fs::create_dir_all(&dir);
+    let Some((mut w, _)) = Worker::spawn(&dir, None, false, true) else { return vec![] };
+    let mut rng = StdRng::seed_from_u64(seed ^ 0x5eed);
+    let body: Vec<u8> = (0..rng.gen_range(2..20000)).map(|i| (i % 251) as u8).collect();
+    let cut = body.len() / 2;
+    let mut out = vec![];
+    let r = w.call(json!({"op": "slow_open", "target": "/slow", "first": base64::prelude::BASE64_STANDARD.encode(&body[..cut])}));
+    if r["status"] == json!(0) {
+        std::thread::sleep(std::time::Duration::from_millis(rng.gen_range(5..60)));
+        let q = w.call(json!({"op": "append", "ctx": "0000000000000000000000000", "topic": "quick", "ttl": "forever",
+            "meta": null, "content": null}));
+        let seen = w.call(json!({"op": "read", "path": "sync", "ctx": null, "last": null, "limit": null, "tail": false}));
+        let s = w.call(json!({"op": "slow_finish", "rest": base64::prelude::BASE64_STANDARD.encode(&body[cut..])}));
+        if q["ok"] == json!(true) && s["ok"] == json!(true) && seen["status"] == json!(200) {
+            let (qid, sid) = (q["frame"]["id"].as_str().unwrap_or("").to_string(), s["frame"]["id"].as_str().unwrap_or("").to_string());
+            let poll = w.call(json!({"op": "read", "path": "sync", "ctx": null, "last": qid, "limit": null, "tail": false}));
+            let polled: Vec<String> = poll["frames"].as_array().map(|a| a.iter().filter_map(|f| f["id"].as_str().map(String::from)).collect()).unwrap_or_default();
+            let saw_quick = seen["frames"].as_array().map(|a| a.iter().any(|f| f["id"] == json!(qid))).unwrap_or(false);
+            out.push(json!({"e": "order", "what": "a frame appended after another was read has the larger id and reaches a poller resuming from it",
+                "ok": !saw_quick || (sid > qid && polled.contains(&sid)), "quick": qid, "slow": sid}));
+        }
+    }
+    w.stop();
+    let _ = std::fs::remove_dir_all(&dir);
+    out
+}
+
 pub fn run_behaviour(root: &Path, beh: &Value, gate_gc: bool, probes: usize, http: bool) -> Vec<Value> {
     let b = beh["b"].as_i64().unwrap_or(0);
     let seed = beh["seed"].as_u64().unwrap_or(b as u64);
@@ -1366,7 +1442,11 @@ pub fn run_behaviour(root: &Path, beh: &Value, gate_gc: bool, probes: usize, htt
             }
         }
     }
+    let rt = http && !run.cli && run.rng.gen_range(0..8) == 0;
     let mut evs = vec![json!({"e": "reset", "b": b})];
     evs.extend(run.finish());
+    if rt {
+        evs.extend(realtime_order_probe(root, seed));
+    }
     evs
 }
